@@ -143,6 +143,16 @@ func init() {
 				n = 20000
 			}
 			magic := embed.Magic[:]
+			// always: large configurations around plausible chunk sizes, embedded honestly and read back
+			for _, sz := range []int{4095, 4096, 4097, 5000, 8193, 16385, 65537} {
+				body := r.bytes(r.pick(0, 17, 300))
+				cfg := r.bytes(sz)
+				fmt.Fprintf(w, "append %s %s\n", hexTok(body), hexTok(cfg))
+				file := append(append(append([]byte{}, body...), embed.XOR(cfg)...), trailer(uint64(len(cfg)), magic)...)
+				fmt.Fprintf(w, "read %s\n", hexTok(file))
+				fmt.Fprintf(w, "stripto %s %s\n", hexTok(file), hexTok(r.bytes(len(file)+40)))
+				fmt.Fprintf(w, "stripin %s\n", hexTok(file))
+			}
 			for i := 0; i < n; i++ {
 				body := r.bytes(r.pick(0, 0, 1, 7, 8, 15, 16, 17, 31, 32, 33, 40, 64, 100, 255, 300))
 				switch r.intn(10) {
